@@ -16,6 +16,7 @@ directory that IS in the way (an OS-level failure of a write).
 import ThriftVerif.Proto.PlanProofs3
 import ThriftVerif.Proto.PlanProofs4
 import ThriftVerif.Proto.PlanProofs7
+import ThriftVerif.Proto.PlanProofsOF
 
 namespace ThriftVerif.Properties.C17
 open ThriftVerif.Proto
@@ -223,6 +224,31 @@ theorem cli_writes_at_raw_join (cwd : Str) (tr : Option Str) (out : Str) (mods p
 /-- Non-vacuity: a plugin path with ".." is refused, even a harmless one. -/
 example : generatePlan "/r".toList "/o".toList [] [some [("a..b/x.go".toList, [2])]] [0]
     = .error .dotdot := by decide
+
+/-! ### 5b. `--output-file` -/
+
+/-- **Whatever file name is given with `--output-file`** (main.go checks only its `.go`
+extension: any number of `..`, an absolute name, `./` …), every write of the run is inside the
+output directory: the single generated file is collected under `normKey (Join(pkg, FILENAME))`. -/
+theorem cli_output_file_confined (cwd : Str) (tr : Option Str) (out ofile : Str) (mods plugs ord) (ws : Files)
+    (h : cliPlanOutputFile cwd tr out ofile mods plugs ord = .ok ws) (hcwd : isAbs cwd = true) :
+    ∀ w ∈ ws, within (clean (absPath cwd out)) w.1 = true :=
+  ThriftVerif.Proto.cli_output_file_confined cwd tr out ofile mods plugs ord ws h hcwd
+
+/-- … and a failed run under `--output-file` writes nothing. -/
+theorem cli_output_file_all_or_nothing (cwd : Str) (tr : Option Str) (out ofile : Str) (mods plugs ord) (e : PlanErr)
+    (h : cliPlanOutputFile cwd tr out ofile mods plugs ord = .error e) :
+    writesOf (cliPlanOutputFile cwd tr out ofile mods plugs ord) = [] :=
+  ThriftVerif.Proto.cli_output_file_all_or_nothing cwd tr out ofile mods plugs ord e h
+
+/-- Non-vacuity: `--output-file ../../../x.go` for `/s/proj/a/main.thrift` (root `/s/proj`, package
+`a/main`) lands at `<out>/x.go`; an included module is not generated. -/
+example : cliPlanOutputFile "/s/work".toList none "/s/out".toList "../../../x.go".toList
+    [⟨"/s/proj/a/main.thrift".toList, some [1]⟩, ⟨"/s/proj/inc.thrift".toList, some [2]⟩] [] [] =
+    .ok [("/s/out/x.go".toList, [1])] := by decide +kernel
+example : cliPlanOutputFile "/s/work".toList none "/s/out".toList "all.go".toList
+    [⟨"/s/proj/a/main.thrift".toList, some [1]⟩, ⟨"/s/proj/inc.thrift".toList, some [2]⟩] [] [] =
+    .ok [("/s/out/a/main/all.go".toList, [1])] := by decide +kernel
 
 /-! ### 6. regression for finding D34 (repaired) -/
 
